@@ -24,4 +24,10 @@ Section Spec.
   (** every result file of the run is complete and correct *)
   Definition AllCached (items : list (N * N)) (f : fs V) : Prop :=
     forall k x, In (k, x) items -> f (Final (name k)) = whole x.
+
+  (** the pairs of a run whose result file is NOT in the directory: what a run has to compute *)
+  Definition absent (f : fs V) (k : N) : bool :=
+    match f (Final (name k)) with None => true | Some _ => false end.
+  Definition missing (items : list (N * N)) (f : fs V) : list (N * N) :=
+    filter (fun kx => absent f (fst kx)) items.
 End Spec.
